@@ -70,6 +70,7 @@ def stream_cfg(ck):
     cfg.continue_in_for = 'lang:continue-in-for' not in open_keys
     cfg.block_shadow = 'lang:block-shadow' not in open_keys
     cfg.arrays = True
+    cfg.strops = True          # string builtins inside their common domain (Ast.char_at_v / substr_v / concat_v)
     cfg.at_on_call = 'lang:at-of-call-untyped' not in open_keys
     cfg.for_bound_mutated = 'lang:for-bound-reevaluated' not in open_keys
     return cfg
@@ -148,6 +149,8 @@ def check_programs(ck, b, nv, progs, feats, stream, want_native=True, ties=True)
                           and 'lang:self-ref-shadow' in {k['key'] for k in ck.known})
         # a for loop whose body assigns a variable the range bound reads: the generated C re-evaluates the bound before every
         # iteration (open finding lang:for-bound-reevaluated); NatSem models the single evaluation the language prescribes
+        # a string builtin outside the domain on which the engines agree: NatSem stops there (NFStrDomain), the binary goes on
+        nat_unmodelled = nat_unmodelled or (mn is not None and mn['cls'] == 'fault-strdomain')
         nat_unmodelled = nat_unmodelled or (stream == 'gen' and 'for_bound_mutated' in feats.get(pid, {})
                                             and 'lang:for-bound-reevaluated' in {k['key'] for k in ck.known})
         # ---- property level: each real engine against the reference
@@ -350,7 +353,7 @@ def nanocore_part(ck, b, nv):
 def run(ck):
     b = ck.build('plain')
     vlib.sync_nanocore()
-    ck.gen(['gen_isa'])
+    ck.gen(['gen_isa', 'gen_intfmt'])
     for k in ('ref_classes', 'engine_runs', 'engine_exempt', 'tie_breaks', 'ties_ok', 'features'):
         ck.extra[k] = collections.Counter()
     ck.prove()
